@@ -32,6 +32,13 @@ cd "$D" || exit 2
 if [ ! -f go.sum ] || [ /repo/go.sum -nt go.sum ]; then
   cat /repo/go.sum "$D/go.sum.extra" 2>/dev/null | sort -u > go.sum
 fi
-out="$D/bin/dst"; flags=()
-if [ "${1:-}" = race ]; then out="$D/bin/dst-race"; flags=(-race); fi
+out="${DST_BIN:-$D/bin/dst}"; flags=()
+if [ "${1:-}" = race ]; then out="${DST_BIN:-$D/bin/dst}-race"; flags=(-race); fi
+# DST_REPO builds against a scratch copy of the repository (sensitivity runs) instead of /repo itself.
+if [ -n "${DST_REPO:-}" ] && [ "$DST_REPO" != /repo ]; then
+  mf="$D/bin/go.$$.mod"
+  sed "s#=> /repo\$#=> $DST_REPO#" go.mod > "$mf"; cp go.sum "$D/bin/go.$$.sum"
+  flags+=(-modfile="$mf")
+  trap 'rm -f "$D/bin/go.$$.mod" "$D/bin/go.$$.sum"' EXIT
+fi
 $GO126 build "${flags[@]}" -overlay "$GEN/overlay.json" -tags "sio_deadlock verif" -o "$out" ./cmd/dst 2>&1 || { echo "BUILD FAILED" >&2; exit 2; }
